@@ -118,6 +118,8 @@ def main():
     from harness import h_ed
     ck.e2('ed-size-pair', h_ed.make(dict(entry='filter_pair', filter='SizeFilter', lens=[0, 1, 2, 3], q=[2],
                                          padding=[True, False], taus=[0, 1, 2], props=P)))
+    ck.e2('ed-size-tables', h_ed.make(dict(entry='filter_split', filter='SizeFilter', nl=1, nr=1, lens=[1, 2, 3],
+                                           alphabet=2, q=[2], padding=[True, False], taus=[0, 1], props=P)))
     ck.e2('ed-position-subset', h_ed.make(dict(entry='filter_split', filter='PositionFilter', nl=1, nr=1,
                                                lens_l=[1], lens_r=[4], q=[2], padding=[True], taus=[2],
                                                size_subset=True, props=P)), expect_nontrivial=False)
